@@ -25,6 +25,9 @@ pub struct Log {
     pub light: bool,
     /// measurement runs: nothing is recorded (no event, no byte copies); scripts are still applied
     pub bare: bool,
+    /// bare runs: live heap right after the rewriter was built / after the last write returned (rewriter alive)
+    pub heap0: isize,
+    pub heap1: isize,
 }
 pub type SLog = Arc<Mutex<Log>>;
 
@@ -37,6 +40,8 @@ pub fn new_log(fail_at: Option<usize>, full: bool) -> SLog {
         full,
         light: false,
         bare: false,
+        heap0: 0,
+        heap1: 0,
     }))
 }
 
@@ -801,6 +806,7 @@ macro_rules! mk_run {
                 };
             let (u, m) = rw.verif_memory_usage();
             push(json!({"e":"ret","res":"ok","usage":u,"max": if m > (i32::MAX as usize) { -1i64 } else { m as i64 }}));
+            if opts.bare { log.lock().unwrap().heap0 = crate::live_heap(); }
             let mut failed = false;
             let mut spin = opts.yields;
             for ch in chunks_of(input, cuts) {
@@ -823,12 +829,14 @@ macro_rules! mk_run {
                 if let Err(p) = r {
                     v["msg"] = json!(panic_msg(p));
                 }
-                push(v);
+                // (bare runs keep their own heap quiet: successful writes leave no event)
+                if !(opts.bare && res == "ok") { push(v); }
                 if res != "ok" {
                     failed = true;
                     break;
                 }
             }
+            if opts.bare { log.lock().unwrap().heap1 = crate::live_heap(); }
             if failed {
                 if opts.poke_after_error {
                     // any further use of a failed rewriter: an empty write, then a non-empty one
@@ -873,6 +881,19 @@ macro_rules! mk_run {
 }
 mk_run!(run_local, settings_local, LocalHandlerTypes);
 mk_run!(run_send, settings_send, lol_html::send::SendHandlerTypes);
+
+/// A bare run (nothing recorded): (result of the last call, live-heap growth between "rewriter built" and "last write
+/// returned", accounted usage at that point is not available here).
+pub fn run_bare_heap(cfg: &Value, input: &[u8], cuts: &[usize]) -> (String, isize) {
+    let fail_at = cfg.get("fail_at").and_then(|x| x.as_u64()).map(|x| x as usize);
+    let log = new_log(fail_at, false);
+    log.lock().unwrap().bare = true;
+    let opts = RunOpts { bare: true, no_end: true, ..RunOpts::default() };
+    run_local(cfg, input, cuts, &opts, &log);
+    let l = log.lock().unwrap();
+    let res = l.tl.iter().rev().find(|e| e["e"] == "ret" && e.get("sl").is_some()).map(|e| e["res"].as_str().unwrap_or("").to_string()).unwrap_or("ok".to_string());
+    (res, l.heap1 - l.heap0)
+}
 
 /// Runs one (cfg, input, cuts) and returns the timeline.
 pub fn run(cfg: &Value, input: &[u8], cuts: &[usize], opts: &RunOpts) -> Vec<Value> {
